@@ -66,6 +66,34 @@ class Validator:
                 "shape_ok": shape_ok, "dtype_ok": dtype_ok, "accepted": accepted, "rt": rt}
 
 
+def wrong_length_texts(v: "Validator", rows: list, nb: int, rng: random.Random) -> list:
+    """The text of a (feasible) packing with numbers appended or cut off, handed to from_str."""
+    P = bp._mods()["Packing"]
+    y = P(v.inst)
+    y[:, :] = np.array(rows, dtype=np.int64).reshape(-1, 6)
+    y.n_bins = int(nb)
+    base = v.space.to_str(y)
+    nums = [t for t in base.replace("\n", ";").split(";") if t.strip() != ""]
+    sep = ";" if ";" in base else " "
+    out = []
+    for kind in ("extra-row", "extra-number", "twice", "one-short"):
+        if kind == "extra-row":
+            toks = nums + nums[-6:]
+        elif kind == "extra-number":
+            toks = nums + [rng.choice(["1", "0", nums[0]])]
+        elif kind == "twice":
+            toks = nums + nums
+        else:
+            toks = nums[:-1]
+        try:
+            v.space.from_str(sep.join(toks))
+            acc = 1
+        except (ValueError, TypeError):
+            acc = 0
+        out.append({"count": len(toks), "accepted": acc, "kind": kind})
+    return out
+
+
 def corrupt(inst, rows: list, nb: int, rng: random.Random) -> tuple:
     """One semantic corruption; returns (rows, nb, kind)."""
     rows = [r[:] for r in rows]
@@ -250,6 +278,9 @@ def run(prop: str, tier: str, seed: int) -> int:
                 continue
             kinds[kind.split("+")[0]] = kinds.get(kind.split("+")[0], 0) + 1
         rec = {"id": f"{fam}-{k}", **bp.inst_record(inst), "tests": tests}
+        if k % 3 == 0 and inst.n_items <= 60:       # texts of the wrong length, derived from a feasible packing
+            st = bp.decode_fresh(inst, rng.choice([1, 2]), bp.random_perm(inst, rng))
+            rec["texts"] = wrong_length_texts(v, st["rows"], st["nb"], rng)
         cases.append(rec)
         nrej = sum(1 - t["accepted"] for t in tests)
         rep.family(fam, len(tests), nrej)
@@ -279,5 +310,9 @@ def replay(prop: str, case: dict) -> dict:
         rows = t["rows"][:-1] if wrong == "shape" else t["rows"]
         tests.append(v.test(rows, t["nb"], wrong=wrong))
     rec = {"id": "replay", **bp.inst_record(inst), "tests": tests}
+    if "texts" in case:       # wrong-length texts again, derived from a fresh feasible packing of the instance
+        rng = random.Random(1)
+        st = bp.decode_fresh(inst, 1, bp.random_perm(inst, rng))
+        rec["texts"] = wrong_length_texts(v, st["rows"], st["nb"], rng)
     vs = core.validate("binpack/Trace_Validate", [rec])
     return {"clause": vs["replay"], "case": rec}
